@@ -267,22 +267,23 @@ Muts == <<
     Mu("s", "add", 2), Mu("s", "discard", 1), Mu("s", "set", {}), Mu("s", "none", {}), Mu("s", "set", {2}),
     Mu("l", "append", 2), Mu("l", "prepend", 2), Mu("l", "set", <<2, 1>>), Mu("l", "none", <<>>), Mu("l", "poplast", 0),
     Mu("m", "put", <<2, 1>>), Mu("m", "put", <<1, 2>>), Mu("m", "delkey", 1), Mu("m", "none", NullM), Mu("m", "set", <<0, 2>>),
+    Mu("l", "set", <<2, 1, 1>>),      \* from [1]: the list grows at BOTH ends (one clause, two ids: prepend [2] and append [1])
     Mu("a", "set", 1), Mu("b", "set", 0), Mu("st", "set", 1), Mu("s", "add", 1), Mu("l", "append", 1), Mu("l", "set", <<>>),
     Mu("m", "put", <<1, 1>>), Mu("m", "delkey", 2), Mu("m", "set", NullM)
 >>
-NMutsNarrow == 20
+NMutsNarrow == 21
 
 MutPairs == <<
     <<Mu("a", "set", 0), Mu("m", "delkey", 1)>>,
     <<Mu("st", "set", 2), Mu("m", "delkey", 1)>>,
     <<Mu("st", "set", 1), Mu("a", "set", 2)>>,
     <<Mu("s", "add", 2), Mu("s", "discard", 1)>>,
-    <<Mu("l", "prepend", 2), Mu("l", "append", 2)>>,
+    <<Mu("l", "prepend", 2), Mu("l", "append", 1)>>,      \* grows at both ends, by different values
     <<Mu("m", "put", <<2, 2>>), Mu("m", "delkey", 1)>>,
     <<Mu("st", "set", 0), Mu("b", "set", 0)>>,
     <<Mu("s", "none", {}), Mu("l", "append", 1)>>
 >>
-NPairsNarrow == 4
+NPairsNarrow == 5
 
 ISaves ==
     [j \in 1..(IF Wide THEN Len(Muts) ELSE NMutsNarrow) |-> ISave(IF j % 2 = 0 THEN "save" ELSE "update", <<Muts[j]>>)] \o
